@@ -148,6 +148,10 @@ def as_container(X, container):
         return X
     if container == "series":
         return pd.Series(X[:, 0])
+    if container == "frame-shifted":        # integer row labels that are not positions (e.g. df.iloc[300:]): outputs are positional whatever the labels
+        return pd.DataFrame(X, index=pd.RangeIndex(300, 300 + len(X)))
+    if container == "frame-strided":
+        return pd.DataFrame(X, index=pd.RangeIndex(0, 3 * len(X), 3))
     return pd.DataFrame(X)
 
 
